@@ -36,7 +36,8 @@ from harness import coqemit as E
 
 MAPPING = os.path.join("typedpy", "json_schema", "json_schema_mapping.py")
 CLASS_SOURCES = [os.path.join("typedpy", "commons.py"), os.path.join("typedpy", "structures", "*.py"),
-                 os.path.join("typedpy", "fields", "*.py"), os.path.join("typedpy", "extfields", "*.py"), MAPPING]
+                 os.path.join("typedpy", "fields", "*.py"), os.path.join("typedpy", "extfields", "*.py"),
+                 os.path.join("typedpy", "serialization", "mappers.py"), MAPPING]
 OUT = os.path.join(core.COQDIR, "theories", "Gen", "SchemaSrc.v")
 
 BUILTIN_K = {"int": "K_int", "float": "K_float", "Decimal": "K_Decimal", "str": "K_str", "bool": "K_bool",
@@ -190,6 +191,26 @@ class Module:
                 seen[t] = seen.get(t, 0) + 1
         self.rebound = {k for k, v in seen.items() if v > 1}
         self.done = {}       # python function / method key -> coq name, for the targets translated so far
+        # string constants imported from typedpy.structures (defined in structures/consts.py)
+        self.imports_logging = False
+        self.from_imports = {}       # local name -> (module, name)
+        try:
+            cons = {}
+            for n in _read(os.path.join("typedpy", "structures", "consts.py")).body:
+                if isinstance(n, ast.Assign) and len(n.targets) == 1 and isinstance(n.targets[0], ast.Name) \
+                        and isinstance(n.value, ast.Constant) and isinstance(n.value.value, str):
+                    cons[n.targets[0].id] = n.value.value
+        except (OSError, SyntaxError):
+            cons = {}
+        for n in self.tree.body:
+            if isinstance(n, ast.Import):
+                self.imports_logging = self.imports_logging or any(a.name == "logging" and a.asname is None for a in n.names)
+            if isinstance(n, ast.ImportFrom) and n.level == 0 and n.module:
+                for a in n.names:
+                    self.from_imports[a.asname or a.name] = (n.module, a.name)
+                    if n.module == "typedpy.structures" and a.asname is None and a.name in cons \
+                            and a.name not in self.consts and a.name not in seen:
+                        self.consts[a.name] = cons[a.name]
 
     def method(self, cls, name):
         """(defining class, node) of `name` for local class `cls`, along the table's MRO restricted to this module"""
@@ -746,6 +767,334 @@ class Tr:
         raise Unsupported("statement %s" % ast.dump(s)[:80])
 
 
+# ----------------------------------------------------------------------------------------------- class level
+
+# functions of other modules that the class-level functions call, with the operator / context parameter that stands
+# for them (checked to be imported from the named module)
+EXTERNALS = {
+    "deepcopy": ("copy", "VALUE"),                      # a deep copy is the identity on values
+    "first_in": ("typedpy.commons", "py_first_in"),     # the first element of an iterable
+    "OrderedDict": ("collections", "py_dict_of_pairs"),
+    "aggregate_serialization_mappers": ("typedpy.serialization.mappers", "agg"),   # context parameter
+}
+
+
+class TrH(Tr):
+    """Translator of the class-level functions: attributes of CLASSES are read from a heap [h] (class name ->
+    attribute -> value; `o.m()` for a parameterless query method is the attribute "m()"), in-place changes of local
+    containers are re-bindings, a `for` loop that changes locals threads them as its state, a procedure that changes
+    its arguments returns them (out-parameters), `p = d[k]` right after `d[k] = <display>` is an alias that is written
+    back, `logging.<level>(...)` statements are outside the value model and skipped."""
+
+    def __init__(self, mod, tokens=(), sm=None, outs=()):
+        super().__init__(mod, None, tokens, sm)
+        self.outs = list(outs)
+        self.aliases = {}         # local -> (dict local, key term)
+        self.fresh_items = set()  # (dict local, key term) assigned from a display in this function
+        self.state_loop = False
+
+    # ------------------------------------------------------------------ values
+    def external(self, name):
+        if name in self.env or name in self.mod.functions or name not in EXTERNALS:
+            return None
+        modname, op = EXTERNALS[name]
+        if self.mod.from_imports.get(name) != (modname, name):
+            raise Unsupported("%s is not imported from %s" % (name, modname))
+        return op
+
+    def val(self, e):
+        if isinstance(e, ast.Tuple):
+            binds, items = [], []
+            for x in e.elts:
+                if isinstance(x, ast.Name) and x.id in self.tokens:
+                    items.append("defs_token")
+                    continue
+                b, a = self.val(x)
+                binds += b
+                items.append(a)
+            return binds, "(PTuple [%s])" % "; ".join(items)
+        if isinstance(e, ast.Attribute) and not e.attr.startswith("__"):
+            b, a = self.val(e.value)
+            t = self.fresh()
+            return b + [(t, "hobj_attr h %s %s" % (a, _sp(e.attr)))], t
+        return super().val(e)
+
+    def call(self, e):
+        f = e.func
+        t = self.fresh()
+        if isinstance(f, ast.Name) and f.id not in self.env and f.id not in self.helpers \
+                and f.id not in self.mod.functions:
+            args = e.args
+            if f.id == "getattr" and not e.keywords and len(args) in (2, 3):
+                b, a = self.val(args[0])
+                name = _sp(self.attr_const(args[1]))
+                if len(args) == 2:
+                    return b + [(t, "hobj_attr h %s %s" % (a, name))], t
+                bd, ad = self.val(args[2])
+                return b + bd + [(t, "hobj_attr_def h %s %s %s" % (a, name, ad))], t
+            if f.id in ("list", "set", "sorted", "callable") and len(args) == 1 and not e.keywords:
+                b, a = self.val(args[0])
+                return b + [(t, "py_%s %s" % (f.id, a))], t
+            op = self.external(f.id)
+            if op is not None and not e.keywords:
+                binds, atoms = [], []
+                for x in args:
+                    b, a = self.val(x)
+                    binds += b
+                    atoms.append(a)
+                if op == "VALUE":
+                    if len(atoms) != 1:
+                        raise Unsupported("call shape of %s" % f.id)
+                    return binds, atoms[0]
+                return binds + [(t, "%s %s" % (op, " ".join(atoms)))], t
+        if isinstance(f, ast.Name) and f.id in self.env and not e.args and not e.keywords:
+            # <local>(): calling a value (a default factory): not looked into
+            return [(t, "py_opaque_call %s" % _sp(f.id))], t
+        if isinstance(f, ast.Attribute) and not e.keywords:
+            m = f.attr
+            if m in ("keys", "items") and not e.args:
+                b, a = self.val(f.value)
+                return b + [(t, "py_dict_%s %s" % (m, a))], t
+            if m == "get" and len(e.args) == 2:
+                b, a = self.val(f.value)
+                bk, ak = self.val(e.args[0])
+                bd, ad = self.val(e.args[1])
+                return b + bk + bd + [(t, "py_dict_get_def %s %s %s" % (a, ak, ad))], t
+            if m == "index" and len(e.args) == 1:
+                b, a = self.val(f.value)
+                bx, ax = self.val(e.args[0])
+                return b + bx + [(t, "py_list_index %s %s" % (a, ax))], t
+            if not e.args and isinstance(f.value, ast.Name) and m not in ("to_json_schema",):
+                # o.m(): a parameterless query method of an object / class, seen as the attribute "m()"
+                b, a = self.val(f.value)
+                return b + [(t, "hobj_attr h %s %s" % (a, _sp(m + "()")))], t
+        return super().call(e)
+
+    # ------------------------------------------------------------------ conditions
+    def cond(self, e):
+        if isinstance(e, ast.Compare) and len(e.ops) == 1 and isinstance(e.ops[0], (ast.Is, ast.IsNot)):
+            r = e.comparators[0]
+            if isinstance(r, ast.Constant) and r.value in (True, False) and isinstance(r.value, bool):
+                b, a = self.val(e.left)
+                fn = "py_is_true" if r.value else "py_is_false"
+                term = "Ok (%s %s)" % (fn, a)
+                if isinstance(e.ops[0], ast.IsNot):
+                    term = "py_not (%s)" % term
+                return self.seq(b, term)
+            c = self.class_name(r)
+            if c is not None:
+                b, a = self.val(e.left)
+                term = "Ok (py_is_class %s %s)" % (a, _sp(c))
+                if isinstance(e.ops[0], ast.IsNot):
+                    term = "py_not (%s)" % term
+                return self.seq(b, term)
+        if isinstance(e, ast.Call) and isinstance(e.func, ast.Name) and e.func.id == "issubclass" \
+                and e.func.id not in self.env and len(e.args) == 2 and not e.keywords:
+            b, a = self.val(e.args[0])
+            c = self.class_name(e.args[1])
+            if c is None:
+                raise Unsupported("issubclass against %s" % ast.dump(e.args[1])[:60])
+            return self.seq(b, "py_issubclass_h h class_mro %s %s" % (a, _sp(c)))
+        return super().cond(e)
+
+    # ------------------------------------------------------------------ statements
+    def rebind(self, name, atom, k):
+        """the local `name` now holds `atom` (after an in-place change); an alias is written back"""
+        if name in self.aliases:
+            d, kt = self.aliases[name]
+            if d not in self.env or d not in self.fresh_dicts:
+                raise Unsupported("alias %s of a container that is not local" % name)
+            t = self.fresh()
+
+            def after():
+                saved = dict(self.aliases)
+                try:
+                    return self.seq([(t, "py_setitem %s %s %s" % (self.env[d], kt, self.env[name]))],
+                                    self.bind_local(d, t, True, k))
+                finally:
+                    self.aliases = saved
+            return self.bind_local(name, atom, True, after)
+        return self.bind_local(name, atom, True, k)
+
+    def mutable(self, e):
+        return isinstance(e, ast.Name) and e.id in self.env and e.id in self.fresh_dicts
+
+    @staticmethod
+    def _mutated(stmts):
+        """names assigned or changed in place by the statements"""
+        out = set()
+        for s in stmts:
+            for n in ast.walk(s):
+                if isinstance(n, ast.Assign):
+                    for tg in n.targets:
+                        for x in ast.walk(tg):
+                            if isinstance(x, ast.Name) and isinstance(x.ctx, ast.Store):
+                                out.add(x.id)
+                        if isinstance(tg, ast.Subscript) and isinstance(tg.value, ast.Name):
+                            out.add(tg.value.id)
+                if isinstance(n, ast.Expr) and isinstance(n.value, ast.Call) and isinstance(n.value.func, ast.Attribute) \
+                        and isinstance(n.value.func.value, ast.Name) \
+                        and n.value.func.attr in ("append", "pop", "update", "remove", "insert", "extend", "clear", "sort"):
+                    out.add(n.value.func.value.id)
+                if isinstance(n, (ast.AugAssign, ast.AnnAssign, ast.With, ast.NamedExpr, ast.Delete, ast.Global,
+                                  ast.Nonlocal, ast.While, ast.Try, ast.Break, ast.Continue, ast.FunctionDef,
+                                  ast.ClassDef, ast.Import, ast.ImportFrom, ast.For, ast.Return)):
+                    out.add("<" + type(n).__name__ + ">")
+        return out
+
+    def is_logging(self, s):
+        return (isinstance(s, ast.Expr) and isinstance(s.value, ast.Call) and isinstance(s.value.func, ast.Attribute)
+                and isinstance(s.value.func.value, ast.Name) and s.value.func.value.id == "logging"
+                and "logging" not in self.env and self.mod.imports_logging)
+
+    def finish(self):
+        """falling off the end of a procedure with out-parameters: their current values"""
+        if self.outs:
+            return "(Ok (PTuple [%s]))" % "; ".join(self.env[o] for o in self.outs)
+        return "(Ok PNone)"
+
+    def block(self, body, k):
+        if not body:
+            return k()
+        s, rest = body[0], body[1:]
+        nxt = lambda: self.block(rest, k)      # noqa: E731
+        if self.is_logging(s):
+            return nxt()
+        if isinstance(s, ast.Return) and self.state_loop:
+            raise Unsupported("return inside a loop that changes locals")
+        if isinstance(s, ast.Return) and self.outs:
+            if s.value is not None:
+                raise Unsupported("a procedure with out-parameters returns a value")
+            return self.finish()
+        if isinstance(s, ast.Assign) and len(s.targets) == 1:
+            tg = s.targets[0]
+            if isinstance(tg, ast.Subscript) and self.mutable(tg.value):
+                d = tg.value.id
+                bk, ak = self.val(tg.slice)
+                bv, av = self.val(s.value)
+                t = self.fresh()
+                saved_a, saved_f = dict(self.aliases), set(self.fresh_items)
+                # a direct store into d invalidates what was known about its items
+                self.aliases = {n: v for n, v in self.aliases.items() if v[0] != d}
+                self.fresh_items = {x for x in self.fresh_items if x[0] != d}
+                if isinstance(s.value, (ast.Dict, ast.List)) and not bk:
+                    self.fresh_items.add((d, ak))
+                try:
+                    return self.seq(bk + bv + [(t, "py_setitem %s %s %s" % (self.env[d], ak, av))],
+                                    self.rebind(d, t, nxt))
+                finally:
+                    self.aliases, self.fresh_items = saved_a, saved_f
+            if isinstance(tg, ast.Name) and isinstance(s.value, ast.Subscript) and self.mutable(s.value.value) \
+                    and tg.id not in self.tokens and tg.id != self.sm:
+                d = s.value.value.id
+                bk, ak = self.val(s.value.slice)
+                if not bk and (d, ak) in self.fresh_items:
+                    t = self.fresh()
+                    saved = dict(self.aliases)
+                    self.aliases[tg.id] = (d, ak)
+                    try:
+                        return self.seq([(t, "py_getitem_dyn %s %s" % (self.env[d], ak))],
+                                        self.bind_local(tg.id, t, True, nxt))
+                    finally:
+                        self.aliases = saved
+            if isinstance(tg, ast.Name) and tg.id in self.aliases:
+                raise Unsupported("re-binding of the alias %s" % tg.id)
+        if isinstance(s, ast.Expr) and isinstance(s.value, ast.Call) and not s.value.keywords:
+            f, args = s.value.func, s.value.args
+            if isinstance(f, ast.Attribute) and self.mutable(f.value) and f.attr in ("append", "pop") and len(args) == 1:
+                d = f.value.id
+                b, a = self.val(args[0])
+                t = self.fresh()
+                return self.seq(b + [(t, "py_list_%s %s %s" % (f.attr, self.env[d], a))], self.rebind(d, t, nxt))
+            if isinstance(f, ast.Attribute) and self.mutable(f.value) and f.attr == "update" and len(args) == 1:
+                d = f.value.id
+                b, a = self.val(args[0])
+                t = self.fresh()
+                return self.seq(b + [(t, "py_dict_update %s %s" % (self.env[d], a))], self.rebind(d, t, nxt))
+            if isinstance(f, ast.Name) and f.id in self.mod.done and len(self.mod.done[f.id]) == 3 \
+                    and f.id not in self.env:
+                coq, params, outs = self.mod.done[f.id]
+                if len(args) != len(params):
+                    raise Unsupported("call shape of %s" % f.id)
+                binds, atoms, outnames = [], [], []
+                for x, pn in zip(args, params):
+                    if pn == "TOKEN":
+                        self.token_arg(x)
+                        continue
+                    if pn in outs:
+                        if not self.mutable(x):
+                            raise Unsupported("out-parameter %s of %s is not given a local container" % (pn, f.id))
+                        outnames.append(x.id)
+                    b, a = self.val(x)
+                    binds += b
+                    atoms.append(a)
+                if len(set(outnames)) != len(outnames):
+                    raise Unsupported("the same container for two out-parameters")
+                t = self.fresh()
+                binds.append((t, "%s %s" % (coq, " ".join(atoms))))
+                parts = []
+                for i, _ in enumerate(outnames):
+                    o = self.fresh("o")
+                    binds.append((o, "py_index %s %d%%nat" % (t, i)))
+                    parts.append(o)
+
+                def chain(i):
+                    if i == len(outnames):
+                        return nxt()
+                    return self.rebind(outnames[i], parts[i], lambda: chain(i + 1))
+                return self.seq(binds, chain(0))
+        if isinstance(s, ast.For) and not s.orelse and not self.in_loop and not self.state_loop:
+            mut = self._mutated(s.body)
+            bad = sorted(x for x in mut if x.startswith("<"))
+            state = sorted(x for x in mut if not x.startswith("<") and x in self.env)
+            if state:
+                if bad:
+                    raise Unsupported("loop body with %s" % ", ".join(bad))
+                if any(x not in self.fresh_dicts or x in self.aliases for x in state):
+                    raise Unsupported("loop changes %s, not all local containers" % ", ".join(state))
+                b, a = self.val(s.iter)
+                x = self.fresh("x_item_")
+                saved, saved_f = dict(self.env), set(self.fresh_dicts)
+                pre = []
+                if isinstance(s.target, ast.Name):
+                    self.env[s.target.id] = x
+                elif isinstance(s.target, ast.Tuple) and len(s.target.elts) == 2 \
+                        and all(isinstance(y, ast.Name) for y in s.target.elts):
+                    pq = self.fresh("p")
+                    pre = [(pq, "py_unpack2 %s" % x)]
+                    self.env[s.target.elts[0].id] = "(pair_fst %s)" % pq
+                    self.env[s.target.elts[1].id] = "(pair_snd %s)" % pq
+                else:
+                    raise Unsupported("loop target")
+                svars = []
+                for n in state:
+                    v = self.fresh("s_" + n + "_")
+                    self.env[n] = v
+                    svars.append(v)
+                init = [saved[n] for n in state]
+                tup = lambda l: l[0] if len(l) == 1 else "(%s)" % ", ".join(l)      # noqa: E731
+                pat = lambda l: l[0] if len(l) == 1 else "'(%s)" % ", ".join(l)     # noqa: E731
+                self.state_loop = True
+                try:
+                    body_t = self.block(s.body, lambda: "(Ok %s)" % tup([self.env[n] for n in state]))
+                finally:
+                    self.state_loop = False
+                    self.env, self.fresh_dicts = saved, saved_f
+                st = self.fresh("st")
+                finals = [self.fresh("v_" + n + "_") for n in state]
+                saved = dict(self.env)
+                for n, v in zip(state, finals):
+                    self.env[n] = v
+                try:
+                    rest_t = nxt()
+                finally:
+                    self.env = saved
+                return self.seq(b, "%s <- py_for_state %s (fun %s %s => %s) %s ;;\n   let %s := %s in %s" % (
+                    st, a, x, pat(svars) if len(svars) > 1 else svars[0],
+                    self.seq(pre, body_t), tup(init), pat(finals), st, rest_t))
+        return super().block(body, k)
+
+
 # ----------------------------------------------------------------------------------------------- targets
 
 # context parameters of every translated function of the mapping module:
@@ -755,6 +1104,11 @@ class Tr:
 CTXP = ("(s2s : pyval -> pyval -> res pyval) (defs_store : pyval -> pyval -> res unit) "
         "(rec : pyval -> pyval -> res pyval)")
 CTXA = "s2s defs_store rec"
+# the class-level functions also take
+#   h cls attr      = the attributes of CLASSES (Structure subclasses, Structure, TypedPyDefaults), by class name
+#   agg cls sm      = aggregate_serialization_mappers(cls, sm)
+HCTXP = "(h : pystr -> pystr -> option pyval) (agg : pyval -> pyval -> res pyval) " + CTXP
+HCTXA = "h agg " + CTXA
 
 
 def _plain_args(node, want):
@@ -834,6 +1188,37 @@ def tr_function(mod, name, want, tokens=(), sm=None, coqname=None, ctx=True):
         mod.done[name] = ("%s %s" % (coq, CTXA) if ctx else coq, params)
         sig = " ".join(p for p in params if p != "TOKEN")
         return "Definition %s %s(%s : pyval) : res pyval :=\n  %s." % (coq, CTXP + " " if ctx else "", sig, body)
+    return coq, name, go
+
+
+def tr_class_function(mod, name, want, tokens=(), sm=None, coqname=None, ctx=True):
+    """a module function translated by TrH; parameters it changes in place are out-parameters"""
+    coq = coqname or name.lstrip("_")
+
+    def go():
+        m = mod.functions.get(name)
+        if m is None or name in mod.rebound:
+            raise Unsupported("%s not found (or bound twice)" % name)
+        a = _plain_args(m, want)
+        if a.defaults and not (sm and len(a.defaults) == 1 and isinstance(a.defaults[0], ast.Constant)
+                               and a.defaults[0].value is None and want[-1] == sm):
+            raise Unsupported("default arguments of %s" % name)
+        outs = [p for p in want if p in TrH._mutated(m.body) and p not in tokens]
+        tr = TrH(mod, tokens=tokens, sm=sm, outs=outs)
+        params = []
+        for p in want:
+            if p in tokens:
+                params.append("TOKEN")
+            else:
+                tr.env[p] = p
+                params.append(p)
+        tr.fresh_dicts |= set(outs)
+        body = tr.block(m.body, tr.finish)
+        mod.done[name] = ("%s %s" % (coq, HCTXA) if ctx else coq, [p if p not in tokens else "TOKEN" for p in want], outs) \
+            if outs else ("%s %s" % (coq, HCTXA) if ctx else coq, params)
+        sig = " ".join(p for p in params if p != "TOKEN")
+        note = "(* changes %s in place: returns them as a tuple *)\n" % ", ".join(outs) if outs else ""
+        return "%sDefinition %s %s(%s : pyval) : res pyval :=\n  %s." % (note, coq, HCTXP + " " if ctx else "", sig, body)
     return coq, name, go
 
 
@@ -923,6 +1308,13 @@ def render():
     ok_body = emit(tr_function(mod, "convert_to_schema", ["field", "definitions_schema", "serialization_mapper"],
                                tokens=["definitions_schema"], sm="serialization_mapper",
                                coqname="convert_to_schema_body"))
+    emit(tr_class_function(mod, "_validated_mapped_value", ["mapper", "key"], ctx=False))
+    emit(tr_class_function(mod, "_generate_schema_for_fields_internal",
+                           ["definitions_schema", "field_by_name", "mapper", "properties", "required"],
+                           tokens=["definitions_schema"]))
+    ok_s2s = emit(tr_class_function(mod, "structure_to_schema", ["structure", "definitions_schema", "serialization_mapper"],
+                                    tokens=["definitions_schema"], sm="serialization_mapper",
+                                    coqname="structure_to_schema_body"))
     lines.append("(* convert_to_schema: the recursion through the mappers takes explicit fuel *)")
     if ok_body:
         lines.append("Fixpoint convert_to_schema (s2s : pyval -> pyval -> res pyval) (defs_store : pyval -> pyval -> res unit)\n"
@@ -934,6 +1326,22 @@ def render():
     else:
         lines.append("Definition convert_to_schema_UNTRANSLATABLE : unit := tt.")
         status["convert_to_schema"] = "unsupported: body"
+    lines.append("")
+    lines.append("(* structure_to_schema: [fuel] bounds the chain of class references, [ffuel] the nesting of fields *)")
+    if ok_body and ok_s2s:
+        lines.append("Fixpoint structure_to_schema (h : pystr -> pystr -> option pyval) (agg : pyval -> pyval -> res pyval)\n"
+                     "    (defs_store : pyval -> pyval -> res unit) (ffuel fuel : nat) (structure serialization_mapper : pyval)\n"
+                     "    : res pyval :=\n"
+                     "  match fuel with\n  | O => Raise OutOfFuel\n"
+                     "  | S n =>\n"
+                     "      let s2s := structure_to_schema h agg defs_store ffuel n in\n"
+                     "      structure_to_schema_body h agg s2s defs_store (convert_to_schema s2s defs_store ffuel)\n"
+                     "                               structure serialization_mapper\n"
+                     "  end.")
+        status["structure_to_schema"] = "ok"
+    else:
+        lines.append("Definition structure_to_schema_UNTRANSLATABLE : unit := tt.")
+        status["structure_to_schema"] = "unsupported: body"
     lines.append("")
     return "\n".join(lines), status
 
